@@ -532,6 +532,7 @@ def main(tier, replay):
                     mism.append(f)
                 elif f[0] in ("INVARIANT", "TRUTH-NOT-WF", "HISTORY", "PD-NOT-TRUTH"):
                     invs.append(f)
+            stats["store_faults"] = trace.count("\nX\tfault getstore")
             seqs = read_seqs(trace)
             del trace
             seen = set()
@@ -612,7 +613,7 @@ def main(tier, replay):
                     "that touch PD or the merger",
                samples=samples, traces_validated_against_impl=mstats.get("cases", 0), input_distribution=classes,
                sequences=mstats.get("seqs", 0), store_replies_compared=mstats.get("replies", 0), invariant_states_checked=mstats.get("inv_checked", 0), invariant_failures=len(invs), truth_wf_checked=mstats.get("wf_checked", 0), histories_checked=mstats.get("hist_checked", 0), pd_truth_answers_checked=mstats.get("pd_truth_checked", 0), history_states=mstats.get("hist_states", 0), model_mismatches=len(mism), oracle_failures=len([f for f in fails if not f["finding_class"]]),
-               known_finding_hits=len([f for f in fails if f["finding_class"]]), bucket_lookups=stats.get("bucket_lookups", 0), stuck_rounds=stats.get("stuck_rounds", 0), sender_convergences=stats.get("sender_convs", 0), sender_effects_explained=stats.get("sender_prims", {}), replica_reads=stats.get("replica_reads", 0), filtered_groupings=stats.get("filtered_groupings", 0), observations={"bucket_fallback_unclamped": stats.get("obs_bucket_fallback_unclamped", 0), "follower_read_seed_wrap_falls_back_to_leader": stats.get("obs_follower_seed_wrap", 0), "probe_follower_wrap": stats.get("probe_follower_wrap", []), "group_filter_not_consulted_for_last_location": stats.get("obs_group_filter_lastloc", 0)},
+               known_finding_hits=len([f for f in fails if f["finding_class"]]), bucket_lookups=stats.get("bucket_lookups", 0), stuck_rounds=stats.get("stuck_rounds", 0), sender_convergences=stats.get("sender_convs", 0), sender_effects_explained=stats.get("sender_prims", {}), replica_reads=stats.get("replica_reads", 0), transient_getstore_faults=stats.get("store_faults", 0), filtered_groupings=stats.get("filtered_groupings", 0), observations={"bucket_fallback_unclamped": stats.get("obs_bucket_fallback_unclamped", 0), "follower_read_seed_wrap_falls_back_to_leader": stats.get("obs_follower_seed_wrap", 0), "probe_follower_wrap": stats.get("probe_follower_wrap", []), "group_filter_not_consulted_for_last_location": stats.get("obs_group_filter_lastloc", 0)},
                convergence_rounds={str(k): n for k, n in sorted(stats["conv_rounds"].items())}, convergence_bound=CONV_BOUND)
     rc = v.finish()
     vlib.write_evidence(PID, cov, t0, violations=len(v.violations), level="proof",
